@@ -49,7 +49,7 @@ def mk(fname, H, W, box=None, fixed=None, with_held=True, symbolic_cells=None):
         if held is None:
             sx.check(isinstance(ob.agent.grid_object, NoneGridObject), 'held-none')
         else:
-            sx.check(ob.agent.grid_object is held, 'held-item-identical')
+            sx.check(ob.agent.grid_object == held, 'held-item-identical')
         shown = 0
         for i in range(h_):
             for j in range(w_):
@@ -61,7 +61,7 @@ def mk(fname, H, W, box=None, fixed=None, with_held=True, symbolic_cells=None):
                     continue
                 shown += 1
                 sx.check(inside, 'shown-cell-lies-inside-the-grid', f'obs({i},{j}) -> world({wy},{wx}) shows {c!r}')
-                sx.check(c is toks[wy][wx], 'shown-cell-is-the-world-cell', f'obs({i},{j}) -> world({wy},{wx}) shows {c!r}')
+                sx.check(c == toks[wy][wx], 'shown-cell-is-the-world-cell', f'obs({i},{j}) -> world({wy},{wx}) shows {c!r}')
         if shown > 1:
             sx.cover('several-cells-shown')
     return h
